@@ -14,10 +14,10 @@ import (
 // Hand-shaped pairs: the implicit document vs the document spelling the names out.
 func runNames(s *core.Shard, offset int) {
 	type nc struct {
-		id        string
-		fileName  string // `name:` written in the file
-		callName  string // requested by the caller ("-" = none)
-		effective string
+		id         string
+		fileName   string // `name:` written in the file
+		callName   string // requested by the caller ("-" = none)
+		effective  string
 		inOverride bool
 	}
 	cases := []nc{
